@@ -5,6 +5,8 @@ H2 out-pointer contract (dangling out-pointers are typestate findings; failure e
 H3 destructors: NULL-safe, return NULL, release every owning field
 H4 constructors initialise every field of every slot they create
 H5 no two owners of one allocation (= C18.T4 freshness)"""
+import re
+from sa import loops
 from sa.ast import render
 from sa.facts import Inconclusive
 from sa import query
@@ -323,7 +325,79 @@ def h4_capacity(prog, ctx):
     ctx.counts["H4 capacity stores"] = n
 
 
+def h8_lists_filled(prog, ctx):
+    """H8: a NULL-terminated list of strings that is malloc()ed (not calloc()ed) for N + 1 slots holds a pointer of its own in every slot
+    below its terminator before anyone walks it (econf_freeArray() frees every slot up to the first NULL): the filling loop stores into
+    slot i in every round of 0 <= i < N and the terminator stands at N - or the terminator stands at the fill counter."""
+    from rules.C01 import enclosing_loop as _el
+    n = 0
+    for f in prog.lib_functions():
+        cfg = f.cfg
+        for c in f.calls("malloc"):
+            up = c.up()
+            while up is not None and up.k in ("CStyleCastExpr", "ImplicitCastExpr", "ParenExpr"):
+                up = up.up()
+            if up is None or not (up.k == "BinaryOperator" and up.j.get("op") == "=" or up.k == "DeclStmt"):
+                continue
+            arr = render(up.children[0]) if up.k == "BinaryOperator" else up.j["decls"][0]["name"]
+            size = render(c.call_args()[0])
+            m = re.search(r"sizeof\(char \*\) \* \((.+) \+ (\d+)\)|\((.+) \+ (\d+)\) \* sizeof\(char \*\)", size)
+            if not m:
+                continue
+            N = m.group(1) or m.group(3)
+            n += 1
+            inst = "%s: list %s = malloc(%s)" % (f.name, arr, size[:50])
+            fills, terms = [], []
+            for lhs, rhs, st, kind in query.stores(f):
+                l0 = lhs.strip()
+                if kind == "=" and l0.k == "ArraySubscriptExpr" and render(l0.children[0]) == arr and rhs is not None and cfg.node_dominates(c, st):
+                    (terms if rhs.is_null_const() else fills).append((st, l0.children[1]))
+            loopfills = [(st, ix) for st, ix in fills if _el(st) is not None and ix.const_value() is None]
+            if not loopfills:
+                ctx.ok("H8", inst, c.where, "slots filled one by one (%d stores), terminator stores %d" % (len(fills), len(terms)))
+                continue
+            verdict = None
+            for st, ix in loopfills:
+                lp = _el(st)
+                sh = loops.for_shape(lp) if lp.k == "ForStmt" else None
+                hb = cfg.loop_header(lp)
+                body_entry = [s2 for (b, i, s2) in cfg.edges() if b == hb and s2 in cfg.natural_loop(hb) and s2 != hb]
+                every_round = bool(body_entry) and all(hb not in cfg.reachable(be, avoid_blocks=[cfg.block_of(st)]) or be == cfg.block_of(st) for be in body_entry)
+                if sh is not None and sh.ok and loops.covers_range(sh, 0, N) and render(ix) == sh.var and every_round:
+                    if any(render(tx) == N for _, tx in terms):
+                        verdict = verdict or ("ok", "slot i written in every round of %s, terminator at %s" % (sh.describe(), N))
+                    else:
+                        verdict = ("unknown", "terminator not found at %s" % N)
+                    continue
+                # a fill counter of its own: the terminator must stand at that counter, after the loop
+                it = render(ix).replace("++", "")
+                cnt_ok = [tx for tst, tx in terms if render(tx) == it and cfg.block_of(tst) not in cfg.natural_loop(hb)]
+                if cnt_ok:
+                    verdict = verdict or ("ok", "terminator at the fill counter `%s`" % it)
+                elif any(render(tx) == N for _, tx in terms):
+                    verdict = ("fail", "the terminator stands at `%s`, but slot `%s` is filled %s: the slots between the last one filled and the terminator hold "
+                                       "whatever malloc() returned, and econf_freeArray() hands them to free()" % (
+                                           N, render(ix), "only in some rounds" if not every_round else "by a counter of its own"))
+                else:
+                    verdict = ("unknown", "fill index %s / terminators %s" % (render(ix), [render(tx) for _, tx in terms]))
+            if verdict[0] == "ok":
+                ctx.ok("H8", inst, c.where, verdict[1])
+            elif verdict[0] == "fail":
+                ctx.fail("H8", inst, loopfills[0][0].where, verdict[1], key="list-holes:%s:%s" % (f.name, arr))
+            else:
+                ctx.inconclusive("H8", inst, c.where, verdict[1])
+    ctx.counts["H8 malloc'ed string lists"] = n
+
+
 def run(prog, ctx):
+    h8_lists_filled(prog, ctx)
+    # H7: the directory lists of an object are released by the code that replaces them only when their count says they exist: an
+    # allocated list always has at least one member, i.e. every round of the option parser's splitting loop stores one (= C15.O11)
+    # H6: the object a merge hands out is nobody else's (= C03.M0)
+    from rules import C03 as _C03
+    common.import_obligations(ctx, prog, [_C03.m0_result_is_fresh], "H6", what="result of the merge")
+    from rules import C15 as _C15
+    common.import_obligations(ctx, prog, [_C15.o11_list_members], "H7", "an allocated list is never counted as absent: ", what="splitting of the option lists")
     names = [n for n in own_rules.LIB_FUNCS if prog.has_fn(n)]
     missing = [n for n in own_rules.LIB_FUNCS if not prog.has_fn(n)]
     # a static anchor that disappeared lives on inside its callers (virtual inlining); only exported ones are missed
